@@ -305,6 +305,15 @@ mod d {
     macro_rules! edge_nth { ($n:expr, $p:expr) => { $n.iter_out().nth($p) }; }
     // every traversal entry point the ownership channel does not store a result of, run and dropped at once (C19: none of
     // them may leave a strong handle behind)
+    // every lookup that resolves a neighbour, and every predicate; none may retain a handle (C19)
+    macro_rules! own_lookups {
+        ($a:expr, $b:expr) => {{
+            let _ = $a.find_outbound($b.key()).is_some();
+            let _ = $a.find_inbound($b.key()).is_some();
+            let _ = $b.find_inbound($a.key()).is_some();
+            let _ = ($a.is_root() as u8) + ($a.is_leaf() as u8) + ($a.is_orphan() as u8) + ($a.out_degree() + $a.in_degree()) as u8;
+        }};
+    }
     macro_rules! own_exercise {
         ($a:expr) => {{
             let a = $a;
@@ -351,6 +360,7 @@ mod d {
                     3 => Some(vec![("p".to_string(), format!("{}>{}:{}", _u.key(), _v.key(), e))]),
                     4 if _u.key().n() < _v.key().n() => Some(vec![("w".to_string(), format!("{}", e))]),
                     5 => Some(vec![]),
+                    6 => Some(vec![("w".to_string(), format!("{}", e)), ("c".to_string(), "x".to_string())]),
                     _ => None,
                 },
             )
@@ -375,6 +385,15 @@ mod sd {
     macro_rules! edge_nth { ($n:expr, $p:expr) => { $n.iter_out().nth($p) }; }
     // every traversal entry point the ownership channel does not store a result of, run and dropped at once (C19: none of
     // them may leave a strong handle behind)
+    // every lookup that resolves a neighbour, and every predicate; none may retain a handle (C19)
+    macro_rules! own_lookups {
+        ($a:expr, $b:expr) => {{
+            let _ = $a.find_outbound($b.key()).is_some();
+            let _ = $a.find_inbound($b.key()).is_some();
+            let _ = $b.find_inbound($a.key()).is_some();
+            let _ = ($a.is_root() as u8) + ($a.is_leaf() as u8) + ($a.is_orphan() as u8) + ($a.out_degree() + $a.in_degree()) as u8;
+        }};
+    }
     macro_rules! own_exercise {
         ($a:expr) => {{
             let a = $a;
@@ -421,6 +440,7 @@ mod sd {
                     3 => Some(vec![("p".to_string(), format!("{}>{}:{}", _u.key(), _v.key(), e))]),
                     4 if _u.key().n() < _v.key().n() => Some(vec![("w".to_string(), format!("{}", e))]),
                     5 => Some(vec![]),
+                    6 => Some(vec![("w".to_string(), format!("{}", e)), ("c".to_string(), "x".to_string())]),
                     _ => None,
                 },
             )
@@ -496,6 +516,21 @@ mod sd {
         n.bfs().for_each(&mut |_e| { seen += 1; }).search();
         c + seen
     }
+    // quiescence check of the free-running stress: out- and in-lists mirror as multisets for every ordered pair
+    fn mirror_ok(nodes: &[&Node<Kt, i64, Et>]) -> Result<(), String> {
+        for u in nodes {
+            for v in nodes {
+                let mut o: Vec<u64> = u.iter_out().filter(|e| e.target().key() == v.key()).map(|e| e.value().n()).collect();
+                let mut i: Vec<u64> = v.iter_in().filter(|e| e.source().key() == u.key()).map(|e| e.value().n()).collect();
+                o.sort();
+                i.sort();
+                if o != i {
+                    return Err(format!("{} reports {:?} towards {}, which reports {:?} from it", u.key(), o, v.key(), i));
+                }
+            }
+        }
+        Ok(())
+    }
     include!("conc.rs");
 }
 mod u {
@@ -509,6 +544,13 @@ mod u {
     macro_rules! conc_step { ($nodes:expr, $progs:expr, $sched:expr) => {{ let _ = ($nodes, $progs, $sched); String::from("unsupported") }}; }
 
     macro_rules! edge_nth { ($n:expr, $p:expr) => { $n.iter().nth($p) }; }
+    macro_rules! own_lookups {
+        ($a:expr, $b:expr) => {{
+            let _ = $a.find_adjacent($b.key()).is_some();
+            let _ = $b.find_adjacent($a.key()).is_some();
+            let _ = ($a.is_orphan() as u8) + $a.degree() as u8;
+        }};
+    }
     macro_rules! own_exercise {
         ($a:expr) => {{
             let a = $a;
@@ -554,6 +596,7 @@ mod u {
                     3 => Some(vec![("p".to_string(), format!("{}>{}:{}", _u.key(), _v.key(), e))]),
                     4 if _u.key().n() < _v.key().n() => Some(vec![("w".to_string(), format!("{}", e))]),
                     5 => Some(vec![]),
+                    6 => Some(vec![("w".to_string(), format!("{}", e)), ("c".to_string(), "x".to_string())]),
                     _ => None,
                 },
             )
@@ -576,6 +619,13 @@ mod su {
     macro_rules! conc_step { ($nodes:expr, $progs:expr, $sched:expr) => { conc::run_sched($nodes, $progs, $sched) }; }
 
     macro_rules! edge_nth { ($n:expr, $p:expr) => { $n.iter().nth($p) }; }
+    macro_rules! own_lookups {
+        ($a:expr, $b:expr) => {{
+            let _ = $a.find_adjacent($b.key()).is_some();
+            let _ = $b.find_adjacent($a.key()).is_some();
+            let _ = ($a.is_orphan() as u8) + $a.degree() as u8;
+        }};
+    }
     macro_rules! own_exercise {
         ($a:expr) => {{
             let a = $a;
@@ -660,6 +710,20 @@ mod su {
         let mut seen = 0usize;
         n.bfs().for_each(&mut |_e| { seen += 1; }).search();
         c + seen
+    }
+    fn mirror_ok(nodes: &[&Node<Kt, i64, Et>]) -> Result<(), String> {
+        for u in nodes {
+            for v in nodes {
+                let mut o: Vec<u64> = u.iter().filter(|e| e.target().key() == v.key()).map(|e| e.value().n()).collect();
+                let mut i: Vec<u64> = v.iter().filter(|e| e.target().key() == u.key()).map(|e| e.value().n()).collect();
+                o.sort();
+                i.sort();
+                if o != i {
+                    return Err(format!("{} lists {:?} towards {}, which lists {:?} towards it", u.key(), o, v.key(), i));
+                }
+            }
+        }
+        Ok(())
     }
     include!("conc.rs");
 }
